@@ -190,9 +190,25 @@ def mutations(tree, tags=(), enum_nonmember=None):
                 for i in range(len(node[2])):
                     out.append(('dropkey', path, replace(tree, path, ('m', node[1], node[2][:i] + node[2][i + 1:]))))
                     out.append(('dupkey', path, replace(tree, path, ('m', node[1], node[2] + (node[2][i],)))))
+                    kk, vv = node[2][i]
+                    for alt in ONE_PER_KIND:
+                        if alt != vv:
+                            # the same key again with a value of another kind (last one wins in PyYAML)
+                            out.append(('dupkind', path, replace(tree, path, ('m', node[1], node[2] + ((kk, alt),)))))
+                            out.append(('dupkind', path, replace(tree, path, ('m', node[1], ((kk, alt),) + node[2]))))
+                    if kk[0] == 's' and '_' in kk[2]:
+                        # dashed spelling of the key together with a value of another kind
+                        dk = S(kk[1], kk[2].replace('_', '-'))
+                        for alt in ONE_PER_KIND + [Q([])]:
+                            if alt != vv:
+                                out.append(('dashkind', path, replace(tree, path, (
+                                    'm', node[1], node[2][:i] + ((dk, alt),) + node[2][i + 1:]))))
                 out.append(('addkey', path, replace(tree, path, ('m', node[1], node[2] + ((S('str', 'qq'), S('int', '1')),)))))
                 out.append(('complexkey', path, replace(tree, path, ('m', node[1], node[2] + ((Q([S('str', 'a')]), S('int', '1')),)))))
                 out.append(('intkey', path, replace(tree, path, ('m', node[1], node[2] + ((S('int', '3'), S('int', '1')),)))))
+                out.append(('reservedkey', path, replace(tree, path, ('m', node[1], node[2] + (
+                    (S('str', '_yatiml_extra'), M([(S('str', 'w'), S('int', '1'))])),)))))
+                out.append(('reservedkey', path, replace(tree, path, ('m', node[1], node[2] + ((S('str', 'self'), S('int', '1')),)))))
         for tg in tags:
             if node[0] == 's' and tg in ('!!map', '!!seq', '!!set', '!!omap'):
                 continue
